@@ -290,3 +290,50 @@ func VH_C18_result_large() {
 		vrt.Assert(rs[k].Upsc == uint16(body[5*k])<<8|uint16(body[5*k+1]) && rs[k].FailInstructionOrder == uint16(body[5*k+2])<<8|uint16(body[5*k+3]) && rs[k].Cause == 0x6f, "result UPSC and order are the octets at their positions, cause normalised to 0x6f")
 	}
 }
+
+// every nested list type marshalled on its own up to the largest size its own 16-bit length field allows:
+// a policy part with contents of symbolic length 0..65534 (length field 1..65535), alone and inside a section
+// contents list; an instruction whose contents fill its length field (part contents up to 65530)
+func VH_C18_part_symlen() {
+	content := vrt.BytesSym("c", 65534)
+	var part UEPolicyPart
+	part.UEPolicyPartType.SetPartType(vrt.U8("ptype"))
+	part.SetPartContent(content)
+	var out []byte
+	var err error
+	if vrt.Bool("viaList") {
+		var sc UEPolicySectionContents
+		sc.AppendUEPolicyPart(&part)
+		out, err = sc.MarshalBinary()
+	} else {
+		out, err = part.MarshalBinary()
+	}
+	vrt.Assert(err == nil, "a policy part whose length fits 16 bits is serialised (contents 0..65534 octets)")
+	vrt.Assert(len(out) == 3+len(content), "part: length field, type, contents")
+	vrt.Assert(int(out[0])<<8|int(out[1]) == 1+len(content), "part length field = 1 + contents, up to 65535")
+	var back UEPolicySectionContents
+	vrt.Assert(back.UnmarshalBinary(out) == nil && len(back) == 1, "the serialised part parses back")
+	vrt.Assert(int(back[0].Len) == 1+len(content) && back[0].UEPolicyPartType == part.UEPolicyPartType && len(back[0].UEPolicyPartContents) == len(content), "part fields round-trip at every size")
+	k := int(vrt.U16("pos"))
+	if k < len(content) {
+		vrt.Assert(back[0].UEPolicyPartContents[k] == content[k], "part contents round-trip at every position (any size)")
+	}
+}
+
+func VH_C18_instruction_symlen() {
+	content := vrt.BytesSym("c", 65530) // instruction length = 2 (UPSC) + 2 + 1 + contents <= 65535
+	var part UEPolicyPart
+	part.UEPolicyPartType.SetPartType(vrt.U8("ptype"))
+	part.SetPartContent(content)
+	var ins Instruction
+	ins.SetUpsc(vrt.U16("upsc"))
+	ins.UEPolicySectionContents.AppendUEPolicyPart(&part)
+	var l UEPolicySectionManagementSubListContents
+	l.AppendInstruction(ins)
+	out, err := l.MarshalBinary()
+	vrt.Assert(err == nil, "an instruction whose length fits 16 bits is serialised")
+	vrt.Assert(len(out) == 2+2+3+len(content) && int(out[0])<<8|int(out[1]) == 2+3+len(content), "instruction length field = UPSC + parts, up to 65535")
+	var back UEPolicySectionManagementSubListContents
+	vrt.Assert(back.UnmarshalBinary(out) == nil && len(back) == 1 && len(back[0].UEPolicySectionContents) == 1, "the serialised instruction parses back")
+	vrt.Assert(back[0].Upsc == ins.Upsc && len(back[0].UEPolicySectionContents[0].UEPolicyPartContents) == len(content), "instruction fields round-trip at every size")
+}
